@@ -209,15 +209,7 @@ theorem blend_ABCD_safe (ins : List Nat) (hin : EnvIn ins Avx2Field.pre_blend_AB
 
 /-! ## documented post-conditions -/
 
-/-- `b < 0.0002` (`2^0.0002 = 1.000138…`): post-condition documented for `new`, `reduce`, `neg` -/
-def b0002 : List Itv := Avx2Field.lanes 10001 10000
-/-- `b < 0.007` (`2^0.007 = 1.004863…`): post-condition documented for `mul`, `square_and_negate_D`, `mul_consts`,
-`reduce64` -/
-def b007 : List Itv := Avx2Field.lanes 10048 10000
-/-- `b < 1` : post-condition documented for `negate_lazy` -/
-def b1 : List Itv := Avx2Field.lanes 2 1
-/-- `b < 1.6` (`2^1.6 = 3.0314…`): post-condition documented for `diff_sum` -/
-def b16 : List Itv := Avx2Field.lanes 3031 1000
+open Dalek.Proofs.Avx2Field (b0002 b007 b1 b16)
 
 /-- `new`: four `FieldElement51` with limbs `< 2^54` ↦ vector bounded with `b < 0.0002` -/
 theorem new_doc_post (ins : List Nat) (hin : EnvIn ins Avx2Field.pre_new) :
